@@ -91,7 +91,7 @@ infoSubsOffline). Each is a message to `hub.routeSrv` addressed to a user; `Mode
 def Topic.origFor (t : Topic) (u : Uid) : String :=
   match t.name.splitOn ":" with
   | ["P", a, b] => if u = a then b else a
-  | _ => if (t.pud u).isChan then "chn:" ++ t.name else t.name
+  | _ => if t.isFnd then "fnd" else if (t.pud u).isChan then "chn:" ++ t.name else t.name
 
 /-- the rendered parameters; actor and target are blanked when they are the recipient -/
 def presExtra (base : String) (actor target user : Uid) : String :=
